@@ -171,6 +171,52 @@ Proof.
            apply td2dict_wf. apply tdfree_wf. apply F'. exact Hz.
 Qed.
 
+(* for TypedDict-free inputs the merge is always defined (the fuel of shrink_top suffices; no assert can fail) *)
+Lemma depth_In_le x l : In x l -> depth x <= depth_list l.
+Proof.
+  unfold depth_list. induction l as [|y r IH]; intros H; [destruct H|]. cbn [fold_right].
+  destruct H as [->|H]; [lia|]. specialize (IH H). lia.
+Qed.
+
+Lemma depth_list_bound l n : (forall x, In x l -> depth x <= n) -> depth_list l <= n.
+Proof.
+  unfold depth_list. induction l as [|y r IH]; intros H; cbn [fold_right]; [lia|].
+  assert (depth y <= n) by (apply H; left; reflexivity).
+  assert (fold_right (fun x n => Nat.max (depth x) n) 0 r <= n) by (apply IH; intros x Hx; apply H; right; exact Hx).
+  lia.
+Qed.
+
+Lemma shrink_tdfree_defined f : forall ts,
+  Forall (fun t => has_td t = false) ts -> depth_list ts < f -> exists t, shrink k f ts = Some t.
+Proof.
+  induction f as [|f IH]; intros ts F D; [lia|]. cbn [shrink].
+  destruct ts as [|t0 rest]; [eexists; reflexivity|].
+  assert (N1 : forallb is_td (t0 :: rest) = false).
+  { cbn [forallb]. rewrite tdfree_not_td; [reflexivity|]. inversion F; assumption. }
+  rewrite N1.
+  destruct (forallb (fun t => py_eqb t t0) rest); [eexists; reflexivity|].
+  destruct (forallb is_tlist (t0 :: rest)) eqn:AL; [|eexists; reflexivity].
+  destruct (IH (filter (fun a => negb (is_tany a)) (map list_arg (t0 :: rest)))) as [T ST].
+  - rewrite Forall_forall in *. intros y Hy. apply filter_In in Hy. destruct Hy as [Hy _].
+    apply in_map_iff in Hy. destruct Hy as [z [<- Hz]]. apply list_arg_tdfree. apply F. exact Hz.
+  - rewrite forallb_forall in AL.
+    assert (H0 : 1 <= depth_list (t0 :: rest)).
+    { pose proof (depth_In_le t0 (t0 :: rest) (or_introl eq_refl)) as H.
+      pose proof (AL t0 (or_introl eq_refl)) as L0. destruct t0; try discriminate L0. cbn [depth] in H. lia. }
+    assert (H1 : depth_list (filter (fun a => negb (is_tany a)) (map list_arg (t0 :: rest)))
+                 <= depth_list (t0 :: rest) - 1).
+    { apply depth_list_bound. intros y Hy. apply filter_In in Hy. destruct Hy as [Hy _].
+      apply in_map_iff in Hy. destruct Hy as [z [<- Hz]].
+      pose proof (depth_In_le z _ Hz) as H. pose proof (AL z Hz) as Lz.
+      destruct z; try discriminate Lz. cbn [depth list_arg] in *. lia. }
+    lia.
+  - rewrite ST. eexists; reflexivity.
+Qed.
+
+Theorem shrink_top_tdfree_defined ts :
+  Forall (fun t => has_td t = false) ts -> exists t, shrink_top k ts = Some t.
+Proof. intros F. unfold shrink_top. apply shrink_tdfree_defined; [exact F|lia]. Qed.
+
 Theorem shrink_top_set_invariant ts ts' t t' :
   Forall (fun t => has_td t = false) ts ->
   incl ts ts' -> incl ts' ts ->
@@ -186,6 +232,20 @@ Theorem shrink_top_perm_invariant ts ts' t t' :
 Proof.
   intros F _ P. apply shrink_top_set_invariant; [exact F| |]; intros x Hx; eapply Permutation_in; try exact Hx;
     [exact P|apply Permutation_sym; exact P].
+Qed.
+
+(* both merges exist and admit the same values *)
+Theorem shrink_top_perm_total ts ts' :
+  Forall (fun t => has_td t = false) ts -> Permutation ts ts' ->
+  exists t t', shrink_top k ts = Some t /\ shrink_top k ts' = Some t' /\ forall v, mem v t = mem v t'.
+Proof.
+  intros F P.
+  assert (F' : Forall (fun t => has_td t = false) ts').
+  { rewrite Forall_forall in *. intros x Hx. apply F. eapply Permutation_in; [apply Permutation_sym; exact P|exact Hx]. }
+  destruct (shrink_top_tdfree_defined ts F) as [t S]. destruct (shrink_top_tdfree_defined ts' F') as [t' S'].
+  exists t, t'. split; [exact S|]. split; [exact S'|].
+  apply (shrink_top_perm_invariant ts ts' t t' F); try assumption.
+  rewrite Forall_forall in *. intros x Hx. apply tdfree_wf. apply F. exact Hx.
 Qed.
 
 End MergeOrder.
